@@ -66,7 +66,7 @@ theorem cc_invariant_run (f f' : F) (ps : List Bytes) (evss : List (List Ev))
   | cons p ps ih =>
     have hp : p.length = 188 := h p (by simp)
     exact ih (stepOf f p).1 (fun q hq => h q (List.mem_cons_of_mem _ hq))
-      (cc_invariant f _ p _ hp (consume_eq f p hp))
+      (cc_invariant f _ p _ hp (consume_eq' f p hp))
 
 /-- under the invariant, the equivalence with the model's own `follows` test -/
 theorem ccerr_iff_follows (f f' : F) (p : Bytes) (evs : List Ev) (h : p.length = 188)
@@ -146,7 +146,7 @@ theorem run_ccerr_succ (f f' : F) (ps : List Bytes) (evss : List (List Ev))
   injection he with he
   subst he
   have hp188 : p.length = 188 := h p (List.mem_of_getElem? hp)
-  have key := ccerr_iff (runPure f (ps.take (j + 1))).1 _ p _ hp188 (consume_eq _ p hp188)
+  have key := ccerr_iff (runPure f (ps.take (j + 1))).1 _ p _ hp188 (consume_eq' _ p hp188)
   rw [runPure_take_succ_cc f ps j q hq] at key
   simpa [ccOf] using key
 
@@ -161,7 +161,7 @@ theorem run_ccerr_zero (f f' : F) (ps : List Bytes) (evss : List (List Ev))
   injection he with he
   subst he
   have hp188 : p.length = 188 := h p (List.mem_of_getElem? hp)
-  exact ccerr_iff _ _ p _ hp188 (consume_eq _ p hp188)
+  exact ccerr_iff _ _ p _ hp188 (consume_eq' _ p hp188)
 
 /-- **C09, run form.** From the freshly constructed filter, packet `k` reports a continuity error iff
 `k ≥ 1` and its counter differs from the expected successor of packet `k-1`'s counter. -/
@@ -242,11 +242,12 @@ theorem quarantine (f f' : F) (p : Bytes) (ps : List Bytes) (e1 : List Ev) (evss
   obtain ⟨rfl, he⟩ := run_inv hall hr
   simp only [runPure, List.cons.injEq] at he
   obtain ⟨rfl, rfl⟩ := he
-  have ⟨h1, h2⟩ := quarantine_step f _ p _ hp (consume_eq f p hp) herr hnus
-  have ⟨h3, h4⟩ := quarantine_run (stepOf f p).1 _ ps _ h1 hps hnus' (run_eq _ ps hps)
+  have ⟨h1, h2⟩ := quarantine_step f _ p _ hp (consume_eq' f p hp) herr hnus
+  have ⟨h3, h4⟩ := quarantine_run (stepOf f p).1 _ ps _ h1 hps hnus' (run_eq' _ ps hps)
   refine ⟨?_, h4⟩
   intro o l hm
-  rcases List.mem_append.mp (by simpa using hm) with hm | hm
+  rw [List.flatten_cons] at hm
+  rcases List.mem_append.mp hm with hm | hm
   · exact h2 o l hm
   · exact h3 o l hm
 
@@ -265,7 +266,7 @@ theorem quarantine_until_begin (f f' : F) (p : Bytes) (ps : List Bytes) (e1 : Li
   obtain ⟨_, he⟩ := run_inv hall hr
   simp only [runPure, List.cons.injEq] at he
   obtain ⟨rfl, rfl⟩ := he
-  have ⟨hst, hnc⟩ := quarantine_step f _ p _ hp (consume_eq f p hp) herr hnus
+  have ⟨hst, hnc⟩ := quarantine_step f _ p _ hp (consume_eq' f p hp) herr hnus
   have hacc := runPure_accepts (stepOf f p).1 ps
   rw [hsplit] at hacc
   obtain ⟨m, hm, _⟩ := accepts_append_some hacc
@@ -277,8 +278,9 @@ theorem quarantine_until_begin (f f' : F) (p : Bytes) (ps : List Bytes) (e1 : Li
   · exact hnc o l hx
   · exact h1 o l hx
 
-/-- an error on a unit-start packet closes the open packet (`ccErr` first) and the packet then starts
-a new PES packet in the ordinary way: the error never suppresses `begin_packet` -/
+/-- whenever an error is reported it is the packet's first callback and it alone closes the open
+packet: no `end_packet` is delivered for a packet already closed by the error (also when the packet is
+a unit start, which then begins a new PES packet in the ordinary way, `C08.begin_iff`) -/
 theorem error_then_restart (f f' : F) (p : Bytes) (evs : List Ev) (h : p.length = 188)
     (hc : consume f p = .ok (f', evs)) (herr : Ev.ccErr ∈ evs) :
     evs.head? = some .ccErr ∧ Ev.endPkt ∉ evs := by
@@ -296,12 +298,9 @@ theorem error_then_restart (f f' : F) (p : Bytes) (evs : List Ev) (h : p.length 
 
 /-! ### non-vacuity -/
 
-/-- a concrete transport packet (same shape as in C08): flags byte `b1` (0x40 = unit start), byte 3
-`b3` (0x10 = payload flag, 0x20 = adaptation-field flag, low nibble = counter) -/
-def mkPkt (b1 b3 : UInt8) (pay : List UInt8) : Bytes :=
-  [0x47, b1, 0x00, b3] ++ pay ++ List.replicate (184 - pay.length) 0xff
-
-def pesStart : List UInt8 := [0, 0, 1, 0xe0, 0, 0]
+/-! concrete packets: `mkPkt b1 b3 pay` = `47 b1 00 b3 pay… ff…` (188 bytes; `b1 = 0x40` unit start;
+`b3`: 0x10 payload flag, 0x20 adaptation-field flag, low nibble = counter), `pesStart = 00 00 01 e0 00 00`
+(see `Ts.Lemmas.C08`) -/
 
 example : (mkPkt 0x00 0x1f []).length = 188 := by decide +kernel
 example : readBits (mkPkt 0x00 0x1f []) 28 4 = 15 ∧ readBits (mkPkt 0x00 0x1f []) 27 1 = 1
